@@ -132,6 +132,10 @@ static int vp_nopen;            /* descriptors open right now */
 static unsigned vp_clock;       /* one tick per libc call */
 static int vp_intrs_left = VP_INTRS;
 static int vp_shorts_left = VP_SHORTS;
+#ifndef VP_FAILS
+#define VP_FAILS 1000       /* hard failures per run (sequence harnesses lower it) */
+#endif
+static int vp_fails_left = VP_FAILS;
 
 /* what happened (witnesses, post-conditions) */
 static int vp_saw_eintr, vp_saw_short, vp_saw_einval_open, vp_saw_enosys;
@@ -222,8 +226,10 @@ vp_kind(int allow_special) {
     vp_intrs_left--;
     vp_saw_eintr = 1;
   }
-  if (k == VP_R_FAIL)
-    VP_ASSUME(vp_faults);
+  if (k == VP_R_FAIL) {
+    VP_ASSUME(vp_faults && vp_fails_left > 0);
+    vp_fails_left--;
+  }
   if (k == VP_R_SPECIAL)
     VP_ASSUME(allow_special);
   return k;
